@@ -2,6 +2,11 @@
  * against a target zckCtx built in memory.  Same case lines and result lines as
  * ocaml/drv_c05.ml (see there for the format). */
 #include "zh_common.h"
+#ifdef ZH_IOWRAP
+/* C12: built with -Wl,--wrap=read,write,lseek; opts fault=<op>.<k>.<kind>.<n> makes the k-th such call on the
+   target fail or transfer a short count while the callbacks run */
+#include "iowrap.h"
+#endif
 #include <zck.h>
 #include "zck_private.h"
 #include <openssl/evp.h>
@@ -17,6 +22,7 @@ typedef struct {
     unsigned char *init; size_t ninit;
     int clr, autor;
     int dsz;
+    char fault[64];
 } zcase;
 
 static void prng_bytes(unsigned seed, unsigned char *out, size_t n) {
@@ -205,7 +211,23 @@ static void run_partition(zcase *c, const size_t *cuts, int ncuts, zres *r) {
     zckDL *dl = zck_dl_init(zck);
     zck_dl_set_range(dl, range);
     r->nret = 0; r->verdict = 1;
+#ifdef ZH_IOWRAP
+    if(c->fault[0]) {
+        char op[16], kind[16]; long k, sh;
+        if(sscanf(c->fault, "%15[^.].%ld.%15[^.].%ld", op, &k, kind, &sh) == 4) {
+            zh_fault_op = !strcmp(op, "read") ? 0 : !strcmp(op, "write") ? 1 : 2;
+            zh_fault_k = k;
+            zh_fault_kind = !strcmp(kind, "eio") ? 1 : !strcmp(kind, "enospc") ? 2 : !strcmp(kind, "eintr") ? 3 : 4;
+            zh_fault_short = sh;
+            zh_fault_reset();
+            zh_armed = 1;
+        }
+    }
+#endif
     feed_transfer(c, &t, dl, c->hdr, c->hdrlen, c->nhdr, c->body, c->nbody, cuts, ncuts, r);
+#ifdef ZH_IOWRAP
+    zh_armed = 0;
+#endif
     finish_result(c, &t, r, ridx_bad);
     zck_dl_free(&dl);
     zck_range_free(&range);
@@ -334,6 +356,7 @@ int main(void) {
             if(strncmp(parts[i], "trunc", 5) == 0) trunc = strtoul(parts[i] + 5, NULL, 10);
             else if(strcmp(parts[i], "clr") == 0) c->clr = 1;
             else if(strcmp(parts[i], "auto") == 0) c->autor = 1;
+            else if(strncmp(parts[i], "fault=", 6) == 0) snprintf(c->fault, sizeof(c->fault), "%s", parts[i] + 6);
         }
         c->ninit = c->doff + pos;
         c->init = malloc(c->ninit + 1);
